@@ -3,6 +3,7 @@ C15 — Selection modes and path predicates are mutually consistent.
 `Sel.select / exists_ / predicateMatch` = model of `Selector::select / exists / predicate_match`.
 -/
 import JsonbModel.Proofs.SelectModes
+import JsonbModel.Proofs.ModesConsistent
 
 namespace Jsonb.Props
 open Jsonb Sel
@@ -42,5 +43,48 @@ theorem C15_predicate (jp : JsonPath) (root data : Bytes) (offs : List Nat) (fue
       = .ok (data ++ (u32be C.SCALAR_CONTAINER_TAG ++ u32be (if ps.isEmpty then C.FALSE_TAG else C.TRUE_TAG)), offs) ∧
     predicateMatch jp root fuel = .ok (!ps.isEmpty) ∧ exists_ jp root fuel = .ok true :=
   predicate_all_modes jp root data offs fuel ps hp hpred m
+
+/-! ### between the model results of the four modes, on every good document (no spec in between) -/
+
+/-- **array-mode returns one array holding exactly the all-mode items**: the documents delimited
+by the all-mode offsets are the elements of the array-mode result, for any prior buffer -/
+theorem C15_array_holds_all_items (v : JV) (hg : JV.goodTop v = true) (jp : JsonPath) (hok : okPaths jp = true)
+    (hnp : isPredicate jp = false) (fuel : Nat) (dataAll : Bytes) (offsAll : List Nat)
+    (hall : select jp .all (JV.encodeSpec v) [] [] fuel = .ok (dataAll, offsAll))
+    (hsmall : (JV.encodeSpec v).length < 268435456) :
+    ∃ items, dataAll = items.flatMap JV.encodeSpec ∧ offsAll = ends 0 items ∧
+      (items.length < 536870912 → ∀ data offs,
+        select jp .array (JV.encodeSpec v) data offs fuel
+          = .ok (data ++ JV.encodeSpec (.arr items), offs ++ [(data ++ JV.encodeSpec (.arr items)).length])) :=
+  array_holds_all_items v hg jp hok hnp hsmall fuel dataAll offsAll hall
+
+/-- the offsets of all-mode cut its data into exactly the items -/
+theorem C15_offsets_cut_items (ws : List JV) :
+    chunks (ws.flatMap JV.encodeSpec) 0 (ends 0 ws) = ws.map JV.encodeSpec := chunks_ends ws
+
+/-- first-mode, stated on the all-mode answer alone: the bytes up to the first offset, or nothing -/
+theorem C15_first_from_all (v : JV) (hg : JV.goodTop v = true) (jp : JsonPath) (hok : okPaths jp = true)
+    (hnp : isPredicate jp = false) (fuel : Nat) (dataAll : Bytes) (offsAll : List Nat)
+    (hall : select jp .all (JV.encodeSpec v) [] [] fuel = .ok (dataAll, offsAll)) (data : Bytes) (offs : List Nat) :
+    select jp .first (JV.encodeSpec v) data offs fuel = .ok (firstCut dataAll offsAll data offs) :=
+  first_from_all_bytes v hg jp hok hnp fuel dataAll offsAll hall data offs
+
+/-- **all four modes from one item list**, or all four fail alike -/
+theorem C15_modes_consistent (v : JV) (hg : JV.goodTop v = true) (jp : JsonPath) (hok : okPaths jp = true)
+    (hnp : isPredicate jp = false) (hsmall : (JV.encodeSpec v).length < 268435456) (fuel : Nat) :
+    (∃ items : List JV,
+      (∀ data offs, select jp .all (JV.encodeSpec v) data offs fuel
+          = .ok (data ++ items.flatMap JV.encodeSpec, offs ++ ends data.length items)) ∧
+      (∀ data offs, select jp .first (JV.encodeSpec v) data offs fuel
+          = .ok (data ++ (items.take 1).flatMap JV.encodeSpec, offs ++ ends data.length (items.take 1))) ∧
+      (items.length < 536870912 → ∀ data offs,
+        select jp .array (JV.encodeSpec v) data offs fuel
+          = .ok (data ++ JV.encodeSpec (.arr items), offs ++ [(data ++ JV.encodeSpec (.arr items)).length]) ∧
+        select jp .mixed (JV.encodeSpec v) data offs fuel
+          = if items.length > 1 then select jp .array (JV.encodeSpec v) data offs fuel
+            else select jp .all (JV.encodeSpec v) data offs fuel)) ∨
+    (∃ failure : Res (Bytes × List Nat), failure.isOk = false ∧
+      ∀ m data offs, select jp m (JV.encodeSpec v) data offs fuel = failure) :=
+  modes_consistent v hg jp hok hnp hsmall fuel
 
 end Jsonb.Props
